@@ -6,6 +6,14 @@ hooks_commits = subprocess.run(["git","-C","/repo","log","--format=%h %s"],captu
 hook_commits = [l.split()[0] for l in hooks_commits if l.split(" ",1)[1].startswith("verif:")]
 
 CHECKS = {
+ "C19": dict(engine="E2 e2e", category="exploration", technique="enumeration of scope skeletons (nesting, shadowing, recursion) x every stop x every frame, oracle = the generator's static scope model",
+   text="Scope skeletons over {let x, let y, nested block} (blocks of up to 3 items, one nesting level, kept if they shadow or nest; quick 10 of them spread over the enumeration, thorough 120) are rendered into a recursive function (depth 3) whose every declaration is followed by a stop line; at every stop of every activation and for every frame of the backtrace the locals shown must contain each innermost live binding with that activation's own value and nothing declared later or in a closed block, `var <name>` must return exactly the innermost live binding, and `arg all` that activation's argument.",
+   note="opt-level 0 only (values kept in registers by optimized code and closures are not covered).",
+   design="3/C19"),
+ "C06": dict(engine="E2 e2e", category="exploration", technique="one generated local per core type form with boundary values; every shown value compared with the generator's table",
+   text="45 locals covering every integer width and sign at its bounds, floats, bools, chars (1/2/4-byte), unit, tuples, nested structs, C-like and data-carrying enums (tuple/struct/unit variants), Option<u8>/Option<NonZeroU32>/Option<&T> in both variants (niche encodings), arrays (nested, empty), &str (non-ASCII, empty), references and raw pointers (dereferenced; null) are read with read_local_variables in 1 (quick) / 3 (thorough) toolchain-DWARF configurations and must equal the table the program was generated from, type names of scalars and user types included.",
+   note="Core (`no_std`) types only: String, Vec, VecDeque, HashMap/HashSet, BTreeMap/BTreeSet, Box/Rc/Arc, Cell/RefCell, statics and thread-locals need std-linked debuggees and are NOT covered (DESIGN.md section 0.2); no recursive type grammar, one value per form.",
+   design="3/C06"),
  "C18": dict(engine="E2 e2e", category="model_checking", technique="explicit-state exploration of breakpoint histories on the same programs linked as classic (non-PIE) and position independent executables",
    text="The C01 exploration (stops = projection of the reference single-step trace, by address / file:line / function, with restart), the text-patch invariant and the backtrace oracle are run on the same generated programs linked non-PIE (ET_EXEC with libc as a dynamic dependency) and PIE; depth 4 (quick: 1 program x 2 link modes) / 5 (thorough: 4 programs x 2 link modes x 2 toolchains).",
    note="Only the PIE / non-PIE half of the property: shared libraries (startup, dlopen/dlclose), deferred breakpoints and `sharedlib info` are not covered (they need std/libc-based debuggees with dlopen, not built in this round).",
@@ -106,7 +114,7 @@ m = {
  },
  "engines": [
    {"name":"E3 sched","path":"/verif/harness/src/sched.rs","serves_properties":["C12"],"kind_free_text":"hand-rolled CHESS: real threads parked at feature-gated schedule points, preemption-bounded DFS, worker subprocess per subtree"},
-   {"name":"E2 e2e","path":"/verif/harness/src/{e2x,e2w,isession,reftrace,dwarfref,corpus,c01}.rs","serves_properties":["C01","C02","C03","C04","C05","C10","C11","C14","C15","C16","C18"],"kind_free_text":"explicit-state exploration of command histories: one interactive worker process per session running the real Debugger over generated libc-free debuggees; reference single-step tracer; canonical-state deduplication"},
+   {"name":"E2 e2e","path":"/verif/harness/src/{e2x,e2w,isession,reftrace,dwarfref,corpus,c01}.rs","serves_properties":["C01","C02","C03","C04","C05","C06","C10","C11","C14","C15","C16","C18","C19"],"kind_free_text":"explicit-state exploration of command histories: one interactive worker process per session running the real Debugger over generated libc-free debuggees; reference single-step tracer; canonical-state deduplication"},
    {"name":"E5 dap","path":"/verif/harness/src/{dapx,dapw,c12}.rs","serves_properties":["C12","C13"],"kind_free_text":"explicit-state exploration of DAP request histories: the real DebugSession::run on a thread inside one worker process per session, in-memory transport, real debuggee; protocol monitor + reference-trace oracle"},
    {"name":"E4 pure","path":"/verif/harness/src/{c07,c14,c17}.rs","serves_properties":["C07","C08","C14","C17"],"kind_free_text":"bounded-exhaustive / explicit-state exploration of in-process components against reference models"},
  ],
